@@ -395,10 +395,54 @@ func normalizeSetField(
 	case isSub(old) && isSub(val):
 		cfgOld, _ := old.toConfig(opts)
 		cfgVal, _ := val.toConfig(opts)
-		return mergeConfig(opts, cfgOld, cfgVal)
+		return normalizeMergeSub(opts, cfgOld, cfgVal)
 	default:
 		return raiseDuplicateKey(cfg, name)
 	}
+}
+
+// normalizeMergeSub adds the settings of from to to. Both have been read from
+// the same input (a key like "a.b" next to a key "a" holding an object), so
+// other than in mergeConfig a setting defined by both is a duplicate key and
+// not an override.
+func normalizeMergeSub(opts *options, to, from *Config) Error {
+	parent := cfgSub{to}
+
+	add := func(old, v value, field string, set func(value)) Error {
+		switch {
+		case isNil(v) && !isNil(old):
+			return nil
+		case isNil(old):
+			set(v.cpy(context{parent: parent, field: field}))
+			return nil
+		case isSub(old) && isSub(v):
+			return normalizeMergeSub(opts, old.(cfgSub).c, v.(cfgSub).c)
+		default:
+			return raiseDuplicateKey(to, field)
+		}
+	}
+
+	for k, v := range from.fields.dict() {
+		k := k
+		old, _ := to.fields.get(k)
+		err := add(old, v, k, func(v value) { to.fields.set(k, v) })
+		if err != nil {
+			return err
+		}
+	}
+
+	for i, v := range from.fields.array() {
+		i := i
+		var old value
+		if i < len(to.fields.array()) {
+			old = to.fields.array()[i]
+		}
+		err := add(old, v, fmt.Sprintf("%d", i), func(v value) { to.fields.setAt(i, parent, v) })
+		if err != nil {
+			return err
+		}
+	}
+	return nil
 }
 
 func normalizeStructValue(opts *options, ctx context, from reflect.Value) (value, Error) {
